@@ -342,6 +342,11 @@ def run(tier, seed, which="C05"):
         seqs = [b1] * g1 + [b2] * g2
         rng.shuffle(seqs)
         extra.append(dict(kinds=["two groups of copies"], bytes=kv.fasta([("r%d" % i, s_) for i, s_ in enumerate(seqs)]).encode(), many="%d + %d copies of two sequences" % (g1, g2)))
+    # very long record names (beyond the 256 bytes kalign keeps, beyond any fixed line or row buffer) through all three writers
+    for L in ([257, 330, 1100, 40000] if tier == "quick" else [255, 256, 257, 300, 323, 324, 330, 600, 1023, 1024, 1100, 5000, 40000, 200000]):
+        seqs = gen.family(rng, 4, 70, gen.AA, sub=0.1, indel=0.03)
+        recs = [("".join(rng.choice("abcdefXYZ012_|.") for _ in range(L)) + "_%d" % i, x + "LKEF") for i, x in enumerate(seqs)]
+        extra.append(dict(kinds=["names of %d characters" % L], bytes=kv.fasta(recs).encode(), many="names of %d characters" % L))
     run_files(V, wd, files, "gen")
     # these get their own script: all three writers
     edir = os.path.join(wd, "many")
@@ -352,7 +357,7 @@ def run(tier, seed, which="C05"):
     def many(k):
         p = os.path.join(edir, "m%d.fa" % k)
         open(p, "wb").write(extra[k]["bytes"])
-        comp = not isinstance(extra[k]["many"], int)
+        comp = not isinstance(extra[k]["many"], int) and "copies" in extra[k]["many"]
         lines = ["level 1" if comp else "level 0", "note F%d" % k, "read 0 %s" % p, "run 0 4 5 -1 -1 -1"]
         for f in ("fasta", "msf", "clu"):
             lines.append("write 0 %s %s" % (f, os.path.join(edir, "m%d.%s" % (k, f))))
